@@ -28,6 +28,7 @@ def run(chk: Check, ctx: Any) -> None:
         "The macro compilation order is a topological order of the dependency graph with edges callee -> caller (R4). Behaviour of the "
         "expanded ops inherits C01's limits."
     )
+    chk.rule("C05-R6", "compile() interpreted on multi-file projects (virtual files): a program with macro calls behaves like the same program with the bodies inlined by hand (bisimilar flow graphs, all test outcomes): nesting across files, return, control flow and labels in macros, repeated calls, argument permutation and kinds, import resolution (relative to the importing file, lookup order, diamonds), definition order; recursive/unknown macros, missing arguments, missing/cyclic imports, routines in imports are rejected with a documented error")
     chk.rule("C05-R1", "build(): one fresh label per blueprint label id and expansion (placement and jump targets use the same table); Return -> Jump to the fresh "
                        "end label placed after the loop; params list is new on every path and substitutes by variable name")
     chk.rule("C05-R2", "call binding dict(zip(macro.variables, args)); variables in header order; macro looked up by the call's name without '~'")
@@ -299,3 +300,6 @@ def run(chk: Check, ctx: Any) -> None:
     chk.decide("C05-R4", "macro-visitor:uses-order", ok, mv, "macros are not compiled in the resolution order", "compiled in resolution order")
     reg = [n for n in walk_no_nested(mv.node) if isinstance(n, ast.Assign) and isinstance(n.targets[0], ast.Subscript) and norm(n.targets[0].value) == "self.compiler_ctx.macros"]
     chk.decide("C05-R4", "macro-visitor:registers-each", len(reg) == 1, mv, "a compiled macro is not made available to the macros compiled after it", "each macro registered for later ones")
+    from .macros import inline_rule
+    inline_rule(chk, ctx, "C05-R6")
+
